@@ -5,6 +5,7 @@ import (
 	"errors"
 	"fmt"
 	"io"
+	"os"
 	"runtime"
 	"strings"
 	"sync"
@@ -126,13 +127,15 @@ type runner struct {
 	cl   *ch.Client
 	enc  *serverEnc
 
-	mu     sync.Mutex
-	cond   *sync.Cond
-	park   map[string]*parked
-	exited map[string]bool
-	gctx   context.Context
-	cbs    []Cb
-	stuck  string
+	mu      sync.Mutex
+	cond    *sync.Cond
+	park    map[string]*parked
+	exited  map[string]bool
+	gone    map[string]bool // the goroutine function has returned
+	recvErr error
+	gctx    context.Context
+	cbs     []Cb
+	stuck   string
 
 	caller *manualCtx
 
@@ -164,6 +167,9 @@ func (r *runner) hook(ctx context.Context, c *ch.Client, point string, err error
 		return
 	}
 	p := &parked{point: point, err: err, release: make(chan struct{})}
+	if os.Getenv("VERIF_DEBUG") != "" && point == "S.ret" {
+		fmt.Fprintf(os.Stderr, "DEBUG %s S.ret err=%v cause=%v\n", r.sc.ID, err, context.Cause(ctx))
+	}
 	r.mu.Lock()
 	if r.gctx == nil && point != "D.ret" {
 		r.gctx = ctx
@@ -531,19 +537,33 @@ func (r *runner) moveRole(role string) bool {
 		close(p.release)
 	}
 	ev := Event{"ev": "Move", "role": role, "from": from}
-	if from == "ret" {
+	last := "ret" // the gate after which the goroutine function returns to the errgroup
+	if role == "R" {
+		last = "done"
+	}
+	if role == "R" && from == "ret" {
+		r.recvErr = p.err
+		// the receiver's deferred calls run: colInfo and done are closed, then it parks once more
+		if !r.waitFor(func() bool { return r.park["R"] != nil && r.park["W"] != nil }) {
+			r.stuck = "the receiver did not close done"
+		}
+		r.mu.Lock()
+		r.exited["R"] = true // colInfo is closed from here on
+		r.mu.Unlock()
+		ev["to"] = "done"
+	} else if from == last {
 		// the goroutine function returns now
 		r.mu.Lock()
 		r.exited[role] = true
+		r.gone[role] = true
 		r.mu.Unlock()
-		if p.err != nil && !dead {
+		retErr := p.err
+		if role == "R" {
+			retErr = r.recvErr // the done gate carries no error; the ret gate before it did
+		}
+		if retErr != nil && !dead {
 			if !r.spinFor(r.gctxDead) {
 				r.stuck = role + ": group context not cancelled after an error return"
-			}
-		}
-		if role == "R" {
-			if !r.waitFor(func() bool { return r.park["W"] != nil }) {
-				r.stuck = "W did not wake after the receiver returned"
 			}
 		}
 		ev["to"] = "exit"
@@ -690,7 +710,7 @@ func (r *runner) step(m byte) bool {
 
 // Run executes the scenario and returns its trace (Begin line first).
 func Run(sc Scenario) (events []Event, err error) {
-	r := &runner{sc: sc, ver: 1, park: map[string]*parked{}, exited: map[string]bool{}, versions: map[int]contents{},
+	r := &runner{sc: sc, ver: 1, park: map[string]*parked{}, exited: map[string]bool{}, gone: map[string]bool{}, versions: map[int]contents{},
 		lastID: map[string]int{}, doneCh: make(chan error, 1)}
 	r.cond = sync.NewCond(&r.mu)
 	r.conn = simconn.New()
@@ -744,7 +764,7 @@ func Run(sc Scenario) (events []Event, err error) {
 			continue
 		}
 		r.mu.Lock()
-		allOut := r.exited["S"] && r.exited["R"] && r.exited["W"]
+		allOut := r.gone["S"] && r.gone["R"] && r.gone["W"]
 		r.mu.Unlock()
 		if !allOut && r.step('C') {
 			continue
